@@ -29,6 +29,40 @@ func (c *inlCtx) tryStmt(s ast.Stmt, next ast.Stmt) ([]ast.Stmt, bool, bool) {
 				}
 			}
 		}
+		// return f(args), simple…  ->  tmp := f(args); return tmp, simple…
+		if len(st.Results) > 1 {
+			for i, r := range st.Results {
+				call, f := c.candidate(r)
+				if call == nil {
+					if !simpleExpr(c.info, r) {
+						break
+					}
+					continue
+				}
+				othersSimple := true
+				for j, o := range st.Results {
+					if j != i && !simpleExpr(c.info, o) {
+						othersSimple = false
+					}
+				}
+				if !othersSimple || f.Sig().Results().Len() != 1 || namedResults(f) {
+					break
+				}
+				rt := f.Sig().Results().At(0).Type()
+				te := typeExpr(rt, c.pkg.Types, c.file, c.info)
+				if te == nil {
+					break
+				}
+				tmp := "ret_i" + strconv.Itoa(c.n.fresh())
+				c.names[tmp] = true
+				mode := inlMode{kind: mAssign, lhs: []ast.Expr{ast.NewIdent(tmp)}, tok: token.DEFINE, lhsObjs: []types.Object{nil}, tmpName: tmp, tmpType: te, tmpT: rt, dead: []bool{false}}
+				if repl, ok := c.inline(call, f, mode); ok {
+					st.Results[i] = ast.NewIdent(tmp)
+					return append(repl, st), false, true
+				}
+				break
+			}
+		}
 	case *ast.AssignStmt:
 		if len(st.Rhs) != 1 || (st.Tok != token.DEFINE && st.Tok != token.ASSIGN) {
 			return nil, false, false
@@ -131,6 +165,7 @@ func (c *inlCtx) tryStmt(s ast.Stmt, next ast.Stmt) ([]ast.Stmt, bool, bool) {
 				mode := inlMode{kind: mAssign, lhs: []ast.Expr{tid}, tok: token.DEFINE, consumer: consumer, lhsObjs: []types.Object{nil}}
 				mode.tmpName = tmp
 				mode.tmpType = ast.NewIdent("bool")
+				mode.tmpT = types.Typ[types.Bool]
 				if r, ok := c.inline(call, f, mode); ok {
 					return r, false, true
 				}
